@@ -648,6 +648,33 @@ def main(tier, seed, only=None):
                      "tus": [{"name": "u0", "role": "user", "includes": ordered_includes(litems, lrng), "items": litems},
                              {"name": "b0", "role": "bystander", "includes": ordered_includes([bit], lrng), "items": [bit]}]})
     lto_index = len(programs) - 1
+    # minimal includes: a user TU that includes only the header declaring what it uses (the model-type enumeration with its
+    # names and spellings; the unit systems; one unit type) while a bystander TU elsewhere in the program includes the
+    # concrete-model headers and every unit header -- content that reaches a table from *other* headers (registration
+    # objects) arrives before or after the user's objects depending on the link order.  g++ only (clang cannot compile the models).
+    min_index = None
+    if cat.models and cat.model_types and "Pressure" in cat.units:
+        mrng = Rng(common.run_seed(seed, 778))
+        mpg = gen.ProbeGen(cat, mrng)
+        mitems, mid = [], 1
+        for t_ in cat.model_types:
+            mitems.append(gen.as_item(mpg.model(0, t_), mid, mrng, allow_literal=False)); mid += 1
+        for l_ in cat.model_literals:
+            mitems.append(gen.as_item(mpg.model(1, l_), mid, mrng, allow_literal=False)); mid += 1
+        for _ in range(4):
+            mitems.append(gen.as_item(mpg.system(), mid, mrng, allow_literal=False)); mid += 1
+        munit = mrng.choice(sorted(cat.units))
+        for p_ in mpg.covering(munit)[:6]:
+            mitems.append(gen.as_item(p_, mid, mrng, allow_literal=False)); mid += 1
+        for it_ in mitems:
+            it_["gcc_only"] = True
+        bys = [dict(mpg.model(2), id=901, form="bystander"), dict(mpg.model(3), id=902, form="bystander")]
+        all_unit_headers = sorted(d["header"] for d in cat.units.values())
+        model_headers = ["PhQ/ConstitutiveModel/%s.hpp" % m_ for m_ in cat.models]
+        programs.append({"label": "minimal-includes:%s" % munit,
+                         "tus": [{"name": "u0", "role": "user", "includes": ordered_includes(mitems, mrng), "items": mitems},
+                                 {"name": "b0", "role": "bystander", "includes": ordered_includes(bys, mrng, model_headers + all_unit_headers), "items": bys}]})
+        min_index = len(programs) - 1
     # schedules
     jobs = []
     for pi, p in enumerate(programs):
@@ -657,6 +684,12 @@ def main(tier, seed, only=None):
             for cfg in configs:
                 if "-flto" in cfg["opt"]:
                     for o in (["b0", "u0", "main"], ["u0", "b0", "main"], ["main", "b0", "u0"]):
+                        jobs.append((pi, {"cfg": cfg, "packaging": "objects", "order": o}))
+            continue
+        if pi == min_index:
+            for cfg in configs:
+                if compiler_family(cfg) == "gcc" and "-flto" not in cfg["opt"]:
+                    for o in (["u0", "b0", "main"], ["b0", "u0", "main"], ["main", "u0", "b0"]):
                         jobs.append((pi, {"cfg": cfg, "packaging": "objects", "order": o}))
             continue
         orders = [["u0", "main"], ["main", "u0"]] if cover else link_orders(p, prng, 16 if thorough else 6)
